@@ -383,6 +383,14 @@ func (w *World) doAppend() {
 		w.appendWithDiskError(n, pl, pc)
 		return
 	}
+	if w.LinkKeyBytes != nil && w.F.adderr && len(n.Set) > 0 && w.R.Bool("seal-fault", 1, 12) {
+		w.appendWithSealFault(n, pl, pc)
+		return
+	}
+	if w.F.adderr && w.R.Bool("cancelled-ctx", 1, 14) {
+		w.appendWithCancelledContext(n, pl, pc)
+		return
+	}
 	e, err := n.Log.Append(w.ctx, pl, &ipfslog.AppendOptions{PointerCount: pc, Pin: pin})
 	if err != nil {
 		w.R.Violate(w.P.Prop+":append-error", "append on replica %d failed without any injected fault: %v", n.Idx, err)
